@@ -392,7 +392,18 @@ impl Core {
         // behaviour.  (With the 'inline' Deferrer, each Stakker has
         // its own Deferrer queue, but the other two use a global or
         // thread-local which may have data from a previous Stakker.)
-        deferrer.set_queue(FnOnceQueue::new());
+        // Dropping those items may defer further items from their
+        // `Drop` handlers, which belong to the previous Stakker just
+        // the same, so repeat until nothing is left (with the same
+        // limit as in `Drop for Stakker`).
+        for _ in 0..99 {
+            let mut old = FnOnceQueue::new();
+            deferrer.swap_queue(&mut old);
+            if old.is_empty() {
+                break;
+            }
+            drop(old);
+        }
 
         Self {
             now,
